@@ -36,9 +36,10 @@ func (x *vc) cfail(format string, args ...interface{}) {
 // contractEnv builds the environment for evaluating contract clauses of frame fr in state st.
 func (x *vc) contractEnv(fr *frame, st *state, hdr *ssa.BasicBlock) *cenv {
 	env := &cenv{x: x, vars: map[string]Val{}, st: st, old: fr.entry, pkg: fr.fn.Pkg.Pkg, fr: fr, hdr: hdr}
-	for _, p := range fr.fn.Params {
+	for i, p := range fr.fn.Params {
 		if v, ok := fr.vals[p]; ok {
 			env.vars[p.Name()] = v
+			env.vars[fmt.Sprintf("arg%d", i)] = v // positional names used by functype / iface contracts
 		}
 	}
 	for _, fv := range fr.fn.FreeVars {
@@ -46,6 +47,8 @@ func (x *vc) contractEnv(fr *frame, st *state, hdr *ssa.BasicBlock) *cenv {
 			env.vars[fv.Name()] = v
 		}
 	}
+	// "self": the function itself as a value (function-type contracts relate it to dispatch tables)
+	env.vars["self"] = x.value(fr, st, fr.fn)
 	return env
 }
 
@@ -86,17 +89,36 @@ func (x *vc) resolveLocal(env *cenv, name string) (Val, bool) {
 	defs := fr.named[name]
 	// prefer the closest dominating definition
 	var best *namedDef
+	defBlock := func(d *namedDef) *ssa.BasicBlock {
+		// the block in which the *value* is defined (a later DebugRef may mention a value defined earlier)
+		if in, ok := d.v.(ssa.Instruction); ok && in.Block() != nil {
+			return in.Block()
+		}
+		return fr.fn.Blocks[0]
+	}
+	isZeroConst := func(d *namedDef) bool { _, ok := d.v.(*ssa.Const); return ok }
 	for i := range defs {
 		d := &defs[i]
-		if env.hdr != nil && d.blk != nil && !(d.blk.Dominates(env.hdr)) {
+		if _, isPhi := d.v.(*ssa.Phi); isPhi && env.hdr != nil && defBlock(d) != env.hdr && !defBlock(d).Dominates(env.hdr) {
 			continue
 		}
-		if best == nil || best.blk.Dominates(d.blk) {
+		if env.hdr != nil && !(defBlock(d).Dominates(env.hdr)) {
+			continue
+		}
+		if _, isC := d.v.(*ssa.Const); !isC {
+			if _, computed := fr.vals[d.v]; !computed {
+				continue // not executed yet on this path
+			}
+		}
+		if best == nil || (isZeroConst(best) && !isZeroConst(d)) || (isZeroConst(best) == isZeroConst(d) && defBlock(best).Dominates(defBlock(d))) {
 			best = d
 		}
 	}
 	if best != nil {
 		v, ok := fr.vals[best.v]
+		if _, isConst := best.v.(*ssa.Const); isConst && !ok {
+			v, ok = x.value(fr, env.st, best.v), true
+		}
 		if !ok {
 			return Val{}, false
 		}
@@ -283,6 +305,32 @@ func (x *vc) evalIdent(env *cenv, name string) Val {
 	if v, ok := env.bound[name]; ok {
 		return v
 	}
+	if env.hdr != nil && env.fr != nil {
+		// "$pos": byte offset of the string range iterator of this loop
+		if name == "$pos" {
+			for _, instr := range env.hdr.Instrs {
+				if nx, ok := instr.(*ssa.Next); ok && nx.IsString {
+					if it, ok := env.fr.vals[nx.Iter]; ok && it.Iter != nil && !it.Iter.isMap {
+						cn, _ := x.cellArr(env.st, types.Typ[types.Int])
+						return Val{T: x.loadLV(env.st, &lvalue{arr: cn, ref: it.Iter.cell}), Typ: intT}
+					}
+				}
+			}
+			x.cfail("$pos: this loop does not range over a string")
+		}
+		// a variable re-assigned in the loop (phi at the header) shadows the parameter of the same name
+		for _, instr := range env.hdr.Instrs {
+			phi, ok := instr.(*ssa.Phi)
+			if !ok {
+				break
+			}
+			if phi.Comment == name {
+				if v, ok := env.fr.vals[phi]; ok {
+					return v
+				}
+			}
+		}
+	}
 	if v, ok := env.vars[name]; ok {
 		return v
 	}
@@ -304,7 +352,17 @@ func (x *vc) evalIdent(env *cenv, name string) Val {
 	if v, ok := x.pkgObject(env, env.pkg, name); ok {
 		return v
 	}
-	x.cfail("unknown identifier %q", name)
+	known := ""
+	if env.fr != nil {
+		for k := range env.fr.named {
+			known += " " + k
+		}
+		for _, d := range env.fr.named[name] {
+			_, has := env.fr.vals[d.v]
+			known += fmt.Sprintf(" [def %s in b%d has=%v hdr=%v]", d.v.Name(), d.blk.Index, has, env.hdr != nil)
+		}
+	}
+	x.cfail("unknown identifier %q (locals in scope:%s)", name, known)
 	return Val{}
 }
 
@@ -462,6 +520,7 @@ func (x *vc) evalCall(env *cenv, e *cexpr) Val {
 	case "old":
 		sub := *env
 		sub.st = env.old
+		sub.hdr = nil // entry values: loop variables do not exist yet
 		return x.eval(&sub, e.args[0])
 	case "len":
 		v := x.eval(env, e.args[0])
@@ -534,6 +593,42 @@ func (x *vc) evalCall(env *cenv, e *cexpr) Val {
 			return Val{T: "true", Typ: boolT}
 		}
 		return Val{T: app(">=", ref, env.old.nextRef), Typ: boolT}
+	case "frame": // frame(x): the heap arrays that hold x's kind of container are unchanged at every reference that existed at entry
+		v := x.eval(env, e.args[0])
+		var names []string
+		switch t := v.Typ.Underlying().(type) {
+		case *types.Slice:
+			n, _ := x.elemArr(env.st, t.Elem())
+			names = []string{n}
+		case *types.Map:
+			d, va, l := x.mapArrs(env.st, t)
+			names = []string{d, va, l}
+		default:
+			x.cfail("frame(x): x must be a slice or a map")
+		}
+		if env.old.nextRef == "" {
+			return Val{T: "true", Typ: boolT}
+		}
+		var cs []string
+		for _, n := range names {
+			cur := x.heapArr(env.st, n, x.heapSorts[n])
+			old := x.heapArr(env.old, n, x.heapSorts[n])
+			if cur == old {
+				continue
+			}
+			x.fresh++
+			r := fmt.Sprintf("fr_%s!%d", mangle(n), x.fresh)
+			cs = append(cs, fmt.Sprintf("(forall ((%s Int)) (=> (and (<= 0 %s) (< %s %s)) (= (select %s %s) (select %s %s))))", r, r, r, env.old.nextRef, cur, r, old, r))
+		}
+		return Val{T: and(cs...), Typ: boolT}
+	case "payload": // payload(x): the pointer held by interface value x (0 for a typed nil pointer)
+		v := x.eval(env, e.args[0])
+		return Val{T: app("ival", v.T), Typ: intT}
+	case "deref": // deref(p): content of the cell / object p points to
+		v := x.eval(env, e.args[0])
+		return x.load(env.st, v)
+	case "b2i":
+		return Val{T: ite(x.evalBool(env, e.args[0]), "1", "0"), Typ: intT}
 	case "same": // exact representation equality (same bytes, offset and length for strings)
 		a := x.eval(env, e.args[0])
 		b := x.eval(env, e.args[1])
@@ -654,6 +749,64 @@ func (x *vc) globalValue(fr *frame, st *state, g *ssa.Global) (Val, bool) {
 		return Val{}, false
 	}
 	et := g.Type().Underlying().(*types.Pointer).Elem()
+	// initialised by a call to a function under contract: the (immutable) variable satisfies that function's
+	// postconditions, with the parameters bound to the constant arguments of the call
+	if call, ok := init.(*ast.CallExpr); ok {
+		if id, ok := call.Fun.(*ast.Ident); ok && (fr == nil || fnKey(fr.fn) != g.Pkg.Pkg.Path()+"."+id.Name) {
+			key := g.Pkg.Pkg.Path() + "." + id.Name
+			fc := x.p.cons.get(key)
+			fn := x.p.funcs[key]
+			if fc != nil && fn != nil && len(fc.ensures) > 0 {
+				v := x.freshVal("glob_"+g.Name(), et, st)
+				env := &cenv{x: x, vars: map[string]Val{"result": v, "r0": v}, st: st, old: st, pkg: g.Pkg.Pkg}
+				okArgs := len(call.Args) == len(fn.Params)
+				for i, a := range call.Args {
+					if !okArgs {
+						break
+					}
+					at, ok := x.constExpr(st, a, info, fn.Params[i].Type())
+					if !ok {
+						okArgs = false
+						break
+					}
+					env.vars[fn.Params[i].Name()] = Val{T: x.define("initarg", x.srt.sortOf(fn.Params[i].Type()), at), Typ: fn.Params[i].Type()}
+				}
+				cache[g] = &v // before evaluating the clauses: they may mention the variable itself
+				n := 0
+				if okArgs {
+					// the initialiser's preconditions, on its constant arguments
+					for k, r := range fc.requires {
+						func() {
+							defer func() {
+								if rr := recover(); rr != nil {
+									if _, isCE := rr.(cevalErr); !isCE {
+										panic(rr)
+									}
+								}
+							}()
+							g0 := &state{heap: st.heap, guard: "true", nextRef: st.nextRef}
+							x.oblige(g0, "const", "pre."+g.Name(), x.evalBool(env, r.expr), x.p.pos(g.Pos()), fmt.Sprintf("precondition %d of %s holds for the constant arguments in the initialiser of %s: %s", k, id.Name, g.Name(), r.text), false)
+						}()
+					}
+				}
+				for _, e := range fc.ensures {
+					func() {
+						defer func() {
+							if r := recover(); r != nil {
+								if _, isCE := r.(cevalErr); !isCE {
+									panic(r)
+								}
+							}
+						}()
+						x.assume("true", x.evalBool(env, e.expr))
+						n++
+					}()
+				}
+				x.trusted[fmt.Sprintf("const: immutable package variable %s.%s is the result of %s (its %d postconditions are assumed for the variable; the initialiser is verified against them; no store outside init found by scan)", g.Pkg.Pkg.Name(), g.Name(), id.Name, n)] = true
+				return v, true
+			}
+		}
+	}
 	term, ok := x.constExpr(st, init, info, et)
 	if !ok {
 		return Val{}, false
@@ -674,6 +827,17 @@ func (x *vc) constExpr(st *state, e ast.Expr, info *types.Info, t types.Type) (s
 			return f64Lit(f), true
 		}
 		return v.T, v.T != ""
+	}
+	if id, ok := e.(*ast.Ident); ok {
+		if id.Name == "nil" {
+			return x.srt.zero(t), true
+		}
+		if f, ok := info.Uses[id].(*types.Func); ok && f.Pkg() != nil {
+			if fn := x.p.funcs[f.Pkg().Path()+"."+f.Name()]; fn != nil {
+				// a function value in a table: a non-zero identifier unique to the function
+				return smtInt(int64(x.srt.typeID(types.NewNamed(types.NewTypeName(0, nil, "fn:"+fn.String(), nil), types.Typ[types.Int], nil)))), true
+			}
+		}
 	}
 	cl, ok := e.(*ast.CompositeLit)
 	if !ok {
